@@ -27,7 +27,7 @@ COMPONENTS = {'real': ['yldprolog.compiler pipeline incl. ANTLR runtime, one fre
               'oracle': ['byte equality of outcome and return value between interpreters and history positions']}
 REQUIRED_PROBES = ('interpreters', 'targets_compared_across_hashseeds', 'targets_compared_across_positions')
 
-OPTIONS = [['', False, False], ['src/a.pl', False, False], ['', False, True], ['b.pl', True, True], ['', True, False]]
+OPTIONS = [['', False, False], ['src/a.pl', False, False], ['', False, True], ['b.pl', True, True], ['', True, False], ['lib/b.pl', False, False]]
 
 
 def gen(seed, tier):
@@ -41,6 +41,9 @@ def gen(seed, tier):
         # every worker also compiles program 0 and 1 with plain options so that overlaps are guaranteed
         for k in (0, 1):
             hist.insert(rng.randrange(len(hist) + 1), [k, 0])
+        # ... and program 0 under both file-name options (same text, other options, same process)
+        for o in (1, 5):
+            hist.insert(rng.randrange(len(hist) + 1), [0, o])
         workers.append({'hashseed': rng.randrange(0, 4294967295), 'clock': [rng.randrange(10**9, 2 * 10**9), rng.choice([0.001, 1, 3600, 86400 * 40])],
                         'history': hist, 'pid': rng.randrange(2, 4194304)})
     return {'programs': programs, 'workers': workers}
